@@ -83,4 +83,7 @@ def run(tier):
     rules_C01_extra.recognition(P, rep)
     rules_C01_extra.glue(P, rep)
     rules_C01_extra.reduced_core_devices(P, rep)
+    # an operand written with `pc` is encoded from the address of its own instruction
+    import rules_C03
+    rules_C03.pc_glue(P, rep, "C01.glue|pc")
     return rep
